@@ -619,7 +619,7 @@ def nontrivial(c):
 
 def main(run, args):
     import checklib
-    n = 1500 if run.tier == "quick" else 30000
+    n = 1500 if run.tier == "quick" else 20000
     if args.cases:
         n = args.cases
     return checklib.standard(run, ID, THEOREMS, IMPORTS, "conversion", gen_cases, to_coq, n, nontrivial=nontrivial,
